@@ -411,11 +411,15 @@ def mpi_backend(c, exe, groups, tier):
         es = [(u, v, (rng.randint(1, 3) if u >= n - t else rng.randint(20, 60))) for u in range(n) for v in range(u + 1, n)]
         rng.shuffle(es)
         pick.append(("complete", (n, es)))
-    # ... and complete graphs in which the triangle on the last three vertices belongs to the minimum basis but is among its heaviest members (light edges among
-    # the first vertices, tail edges 10k, cross edges 11k): it is found in a late phase, when the support has at least |V| entries
-    for n in (7, 7, 7, 7, 8, 8, 11, 11):
-        k = rng.randint(4, 8); head = n - 3
-        def wgt(u, v): return (1 if v < head else 10 * k if u >= head else 11 * k) + rng.randint(0, 2)
+    # ... and complete graphs in which the triangle on the LAST three vertices is the lightest cycle through the last vertex (the BFS root, whose edges are heavy)
+    # while many lighter cycles pass through its one non-tree edge: it belongs to the minimum basis and is found in a late phase, when the support has
+    # at least |V| entries (all-vertices branch of the MPI signed variant), and it contains none of the vertices of the leading slices
+    for n, jit in ((7, 1), (7, 10), (7, 10), (8, 1), (8, 10), (11, 10)):
+        hub = n - 1; o = {n - 3, n - 2}
+        def wgt(u, v):
+            q = {u, v}
+            b = 1 if q == o else 20 if hub in q and (q - {hub}) <= o else 30 if hub in q else 2 if q & o else 3
+            return b * jit + (rng.randint(0, jit - 1) if jit > 1 else 0)
         es = [(u, v, wgt(u, v)) for u in range(n) for v in range(u + 1, n)]
         rng.shuffle(es)
         pick.append(("complete", (n, es)))
